@@ -14,7 +14,7 @@ BOUNDED = {
     "C05": "`mean`, dtype matrix",
     "C06": "derived-vs-fresh comparison under every probe (representation independence end to end)",
     "C07": "`sort`, `unique`, `diff` values end to end; float accumulate is the known finding",
-    "C08": "`concatenate(axis=1)`, `_as_padded_matrix`, `subset`",
+    "C08": "`concatenate(axis=1)` (Python loop over rows), `_as_padded_matrix`",
     "C09": "float / bool column sums, `mean(axis=0)`",
     "C10": "differential histories (the history relation itself)",
     "C11": "histories against a dict (composition of the proved constructor invariant, lookup and assignment contracts is a paper argument)",
